@@ -596,7 +596,13 @@ impl ElementRaw {
                         }
                     }
                     ElementContent::CharacterData(cdata) => {
-                        copy.content.push(ElementContent::CharacterData(cdata.clone()));
+                        if self
+                            .elemtype
+                            .chardata_spec()
+                            .is_none_or(|spec| cdata.check_version_compatibility(spec, target_version).0)
+                        {
+                            copy.content.push(ElementContent::CharacterData(cdata.clone()));
+                        }
                     }
                 }
             }
